@@ -2,6 +2,8 @@ import Nstd.Common.Basic
 import Nstd.Args.Model
 import Nstd.Args.Kernel
 import Nstd.Args.Wait
+import Nstd.Args.ReadSel
+import Nstd.Args.KernelFail
 /-
   Line protocol of the Args area (property C20).  One op per line, one observation line per op.
 
@@ -42,6 +44,12 @@ import Nstd.Args.Wait
                                             → w <op> ... pend=<0|1> kids=<n> zombies=<n>
          Process::wait / interrupt over four Process objects, run on the transition system of Wait.lean; <pick> = the
          object whose terminated child the kernel reports to waitid (`-` = none), <ms> > 0 = another thread interrupts
+    sel <nout> <nerr> <hold> <swap> <len.streams.script>...
+                                            → sel ok=1 r=<n>/<stream>/<o|e|-> | r=einval ...   (Process::read(buf, len, streams) on the
+         model ReadSel.read3; script letters T = select times out, I = EINTR; then select returns)
+    joinfail <mask> <k> <code>              → jf ok=1 j=0/<running><out><err><in> (k times) j=1/0000/<code>     (waitpid fails k times)
+    startfail <cmd|argv>                    → sf pid=0 st=0000
+    dmn <ok|nofile>                         → dmn ret=<0|1> fd0=<same|log|closed> fd1=.. fd2=.. fd3=..   (daemonize on Kernel.daemonizeFds)
   An inherited environment is shown as `env=inherit:<the API-set variables, sorted as strings>`.
 
   The harness prints the same prefix followed by ` | <what the kernel delivered>`; that part is
@@ -241,6 +249,38 @@ def wStep (s : Wait.St) (ws : List String) : Wait.St × String :=
     | _, _ => (s, "bad-op")
   | _ => (s, "bad-op")
 
+/-! ### Process::read(buffer, length, streams) (ReadSel.lean) -/
+
+def selReads (s : ReadSel.RS) : List String → String → String
+  | [], acc => acc
+  | t :: r, acc =>
+    match t.splitOn "." with
+    | [l, st, script] =>
+      match l.toNat?, st.toNat? with
+      | some l, some st =>
+        let evs := script.toList.map (fun c => if c == 'T' then ReadSel.Ev.timeout else if c == 'I' then .eintr else .ready) ++ [.ready]
+        match ReadSel.read3 s l st evs with
+        | .einval => selReads s r (acc ++ " r=einval")
+        | .got stream bytes s' =>
+          let c := match bytes.head? with | some 111 => "o" | some 101 => "e" | some _ => "?" | none => "-"
+          selReads s' r (acc ++ s!" r={bytes.length}/{stream}/{c}")
+        | .blocked => acc ++ " BLOCK"
+        | .hang => acc ++ " HANG"
+        | .minus1 => selReads s r (acc ++ " r=-1")
+        | .spin => acc ++ " SPIN"
+      | _, _ => acc ++ " r=bad"
+    | _ => acc ++ " r=bad"
+
+def dmnLine (kind : String) : String :=
+  let base : Kernel.FdTable := fun x => if x < 3 then some (.other x) else none
+  let r := Kernel.daemonizeFds 3 9 (if kind == "ok" then .daemon else .openFailed) base
+  let shown (x : Nat) : String :=
+    match r.1 x with
+    | none => "closed"
+    | some (.other t) => if t = 9 then "log" else if t = x then "same" else "other"
+    | some _ => "pipe"
+  s!"dmn ret={b01 r.2} fd0={shown 0} fd1={shown 1} fd2={shown 2} fd3={shown 3}"
+
 def stepLine' (pe : PEnv) (ws : List String) : String :=
     match ws with
     | "args" :: o :: words =>
@@ -273,6 +313,29 @@ def stepLine' (pe : PEnv) (ws : List String) : String :=
       match code.toNat? with
       | some _ => "exit ok=1"
       | none => "bad-op"
+    | "sel" :: nout :: nerr :: hold :: swap :: reads =>
+      match nout.toNat?, nerr.toNat?, hold.toNat?, swap.toNat? with
+      | some no, some ne, some h, some sw =>
+        let s0 : ReadSel.RS := { fdOut := if sw != 0 then 12 else 3, fdErr := 5, outQ := List.replicate no 111, errQ := List.replicate ne 101,
+                                 outW := h != 0, errW := h != 0 }
+        selReads s0 reads "sel ok=1"
+      | _, _, _, _ => "bad-op"
+    | ["joinfail", m, k, code] =>
+      match m.toNat?, k.toNat?, code.toNat? with
+      | some m, some k, some c =>
+        let p0 := (Proc.init.step (.openp (m % 8))).1
+        let rec go (n : Nat) (p : Proc) (acc : String) : String :=
+          match n with
+          | 0 => let (p', ok) := p.step .join; acc ++ s!" j={b01 ok}/{b01 p'.running}{b01 p'.out}{b01 p'.err}{b01 p'.inp}/{c}"
+          | n + 1 => let (p', ok) := p.step .joinFailed; go n p' (acc ++ s!" j={b01 ok}/{b01 p'.running}{b01 p'.out}{b01 p'.err}{b01 p'.inp}")
+        go (min k 7) p0 "jf ok=1"
+      | _, _, _ => "bad-op"
+    | ["startfail", form] =>
+      if form == "cmd" || form == "argv" then
+        let (p, ok) := Proc.init.step .startFailed
+        s!"sf pid={b01 ok} st={b01 p.running}{b01 p.out}{b01 p.err}{b01 p.inp}"
+      else "bad-op"
+    | ["dmn", kind] => if kind == "ok" || kind == "nofile" then dmnLine kind else "bad-op"
     | ["pexit", code] =>
       match code.toNat? with
       | some c => s!"pexit ok=1 code={c % 256}"          -- Process::exit(code): `_exit(code)` (repaired), status = low 8 bits
